@@ -107,6 +107,37 @@ mutant('C07', 'deactivate-no-echo', 'frappy/protocol/dispatcher.py',
        "        return (DISABLEEVENTSREPLY, None, None)")
 mutant('C07', 'help-two-replies', 'frappy/protocol/interface/handler.py',
        "            self.send_reply(('_', f'{idx + 1}', line))", "            self.send_reply((HELPREPLY, f'{idx + 1}', line))")
+# ---------------------------------------------------------------- C04
+mutant('C04', 'readonly-not-refused', 'frappy/protocol/dispatcher.py',
+       "        if pobj.readonly:\n            raise ReadOnlyError(f\"Parameter {modulename}:{pname} can not be changed remotely\")",
+       "        if False:\n            raise ReadOnlyError(f\"Parameter {modulename}:{pname} can not be changed remotely\")")
+mutant('C04', 'constant-and-readonly-not-refused', 'frappy/protocol/dispatcher.py',
+       "        if pobj.constant is not None:\n            raise ReadOnlyError(f\"Parameter {modulename}:{pname} is constant and can not be changed remotely\")\n        if pobj.readonly:",
+       "        if pobj.constant is not None and False:\n            raise ReadOnlyError(f\"Parameter {modulename}:{pname} is constant and can not be changed remotely\")\n        if pobj.readonly and pobj.constant is None:")
+mutant('C04', 'checks-skipped', 'frappy/modulebase.py',
+       "                            for c in check_funcs:\n                                if c(self, value):\n                                    break",
+       "                            for c in ():\n                                if c(self, value):\n                                    break")
+mutant('C04', 'double-driver-call', 'frappy/modulebase.py',
+       "                                new_value = wfunc(self, new_value)\n                                self.log.debug('write_%s(%r) returned %r'",
+       "                                wfunc(self, new_value)\n                                new_value = wfunc(self, new_value)\n                                self.log.debug('write_%s(%r) returned %r'")
+mutant('C04', 'unexported-reachable', 'frappy/modulebase.py',
+       "        if accessible.export:\n            self.accessiblename2attr[accessible.export] = name",
+       "        self.accessiblename2attr[accessible.export or ('_' + name)] = name")
+mutant('C04', 'scaled-accepts-strings', 'frappy/datatypes.py',
+       "            if isinstance(value, (str, bytes)) or int(value) != value:",
+       "            if False:")
+mutant('C04', 'limits-check-inverted-max', 'frappy/modulebase.py',
+       "        if value > max_:\n            raise RangeError(f'{pname} above {pname}_max')",
+       "        if value > max_ + 1:\n            raise RangeError(f'{pname} above {pname}_max')")
+mutant('C04', 'command-arg-not-validated', 'frappy/params.py',
+       "            # verify range\n            self.argument.validate(argument)",
+       "            # verify range")
+mutant('C04', 'no-previous-for-partial-struct', 'frappy/protocol/dispatcher.py',
+       "        value = pobj.datatype.validate(value, previous=pobj.value)",
+       "        value = pobj.datatype.validate(value)")
+mutant('C04', 'string-maxchars-off-by-one', 'frappy/datatypes.py',
+       "        if size > self.maxchars:\n            raise RangeError(\n                f'{shortrepr(value)} must be at most {self.maxchars} chars long!')",
+       "        if size > self.maxchars + 1:\n            raise RangeError(\n                f'{shortrepr(value)} must be at most {self.maxchars} chars long!')")
 
 
 def run_mutant(prop, name, file, old, new, runs, extra):
